@@ -162,20 +162,6 @@ def identity_update(k):
     return wp
 
 
-def vcs():
-    out = []
-    f = astload.resolve_tu(SRC)
-    ls = lsearch_step()
-    out += ls.vcs(ls.name, astload.resolve_tu('src/solver/gsample/lsearch.h'), 'gsample::lsearch_t::step: an accepted step strictly decreases the value when H is positive semi-definite')
-    out.append(reach_vc(ls, ls.name, astload.resolve_tu('src/solver/gsample/lsearch.h')))
-    for wp, about in ((lbfgs_update(), 'lbfgs_preconditioner_t::update(sampler, state, epsilon): W, H stay positive definite'),
-                      (lbfgs_update_alpha(), 'lbfgs_preconditioner_t::update(alpha): miu > 0'),
-                      (identity_update(1), 'identity_preconditioner_t::update(alpha)'), (identity_update(3), 'identity_preconditioner_t::update(sampler, state, epsilon)')):
-        out += wp.vcs(wp.name, f, about)
-        out.append(reach_vc(wp, wp.name, f))
-    return out
-
-
 # ----------------------------------------------------------------------------- gsample::lsearch_t::step over the reals
 LS_TU = 'src/solver/gsample.cpp'
 
@@ -202,6 +188,13 @@ def h_vgrad(wp, n, args, obj):
 
 
 def h_state_update(wp, n, args, obj):
+    real = [a for a in args if unwrap(a).get('kind') != 'CXXDefaultArgExpr']
+    if len(real) == 3:
+        # state.update(x, gx, fx): the triple is stored as given (src/solver/state.cpp); whether it is one evaluation is the
+        # business of the CBMC target gs_lsearch_step
+        wp.env['state.fx'] = wp.conv(wp.ev(real[2]), 'Real', 'double')
+        wp.env['moved'] = V('true', 'Bool', 'bool')
+        return V('true', 'Bool', 'bool')
     v = trial_value(wp, args[0], 'state.update')
     wp.env['state.fx'] = v                              # state.update(x): one evaluation at x (assumed contract, as in specs/solver)
     wp.env['moved'] = V('true', 'Bool', 'bool')
@@ -233,7 +226,7 @@ def ls_decl_hook(wp, v, init):
 
 def lsearch_step():
     fn = astload.find_definition(LS_TU, 'gsample::lsearch_t::step', 'step', step_select)
-    wp = IdEnvWP('gs_lsearch_step_decrease', real=True,
+    wp = IdEnvWP('gsample_step_decreases_value', real=True,
                  members=[(r'^vgrad\|nano::function_t', h_vgrad), (r'^update\|nano::solver_state_t', h_state_update),
                           (r'^fx\|nano::solver_state_t', h_state_fx), (r'^dot\|', h_gHg)])
     wp.decl_hooks = (ls_decl_hook,)
@@ -271,3 +264,29 @@ def lsearch_step():
                              ('a zero step is returned exactly when the state did not move', f'(= {w.env["moved"].t} (not (= {rv.t} 0.0)))')]
     wp.run(fn, astload.resolve_tu('src/solver/gsample/lsearch.h'))
     return wp
+
+
+def undecided_vc(name, why):
+    """a construction that met code outside the modelled vocabulary: this VC is undecided (no solver verdict), the rest of the check
+    still runs and decides"""
+    return VC(f'{name}/extraction: {why}'[:300], '(this is not an SMT script: the symbolic execution stopped)\n', about=why)
+
+
+def vcs():
+    out = []
+    f = astload.resolve_tu(SRC)
+    lf = astload.resolve_tu('src/solver/gsample/lsearch.h')
+    jobs = [(lsearch_step, 'gsample_step_decreases_value', lf, 'gsample::lsearch_t::step: an accepted step strictly decreases the value when H is positive semi-definite'),
+            (lbfgs_update, 'lbfgs_update', f, 'lbfgs_preconditioner_t::update(sampler, state, epsilon): W, H stay positive definite'),
+            (lbfgs_update_alpha, 'lbfgs_update_alpha', f, 'lbfgs_preconditioner_t::update(alpha): miu > 0'),
+            (lambda: identity_update(1), 'identity_update1', f, 'identity_preconditioner_t::update(alpha)'),
+            (lambda: identity_update(3), 'identity_update3', f, 'identity_preconditioner_t::update(sampler, state, epsilon)')]
+    for mk_, name, file, about in jobs:
+        try:
+            wp = mk_()
+        except (Unsupported, astload.ExtractionError) as e:
+            out.append(undecided_vc(name, str(e)))
+            continue
+        out += wp.vcs(wp.name, file, about)
+        out.append(reach_vc(wp, wp.name, file))
+    return out
